@@ -658,3 +658,341 @@ Theorem program_self_contained_scripts_correct :
 Proof. exact ProgramRun.program_self_contained_scripts_correct. Qed.
 Print Assumptions program_self_contained_scripts_correct.
 
+
+(* ---- the premises on names moved to the SOURCE (NamesOk.v). src_names_ok name body (executable): the author's labels are
+   pairwise distinct; every goto(l) with one argument names a label of the script, or a name that is neither the script's own
+   name nor of the generated form <name>_<digits>; no AutoVar command of a condition is called end / return / goto.
+   names_ok_from_source: then the output-level check names_okb holds. compiled_scripts_correct_src_names: C01 from the source text
+   with src_names_ok in place of NoDup (dlabs body) and names_okb; optimize_equiv_src_names; program_scripts_correct_src_names,
+   program_self_contained_scripts_correct_source (inside the whole program, hypothesis on the author's gotos only),
+   program_local_goto_scripts_correct; autovar_names_from_config: the third clause follows from a check of the command
+   configuration. Each clause is needed: NamesOk.v examples duplicate_label_miscompiled (a label written twice in one script is
+   accepted by the compiler and the goto binds differently in source and assembly - outside C01's 'user labels' as a set, recorded
+   as boundary B2), goto_generated_label_miscompiled, goto_own_name_differs_alone, autovar_named_end_miscompiled. ---- *)
+From Pory Require Import NamesOk.
+Theorem src_names_ok_spec :
+  forall (name : text) (body : list stmt),
+  src_names_ok name body = true <->
+  NoDup (WorkLabels.dlabs body) /\
+  (forall (c : cmd) (l : text),
+   In (ML.KCommand c) (ML.body_constructs body) ->
+   is_name c "goto" = true -> cargs c = [l] -> In l (WorkLabels.dlabs body) \/ l <> name /\ generated_form name l = false) /\
+  (forall (l : leaf) (p : cmd),
+   In (ML.KCond l) (ML.body_constructs body) ->
+   lpre l = Some p -> is_name p "end" = false /\ is_name p "return" = false /\ is_name p "goto" = false).
+Proof. exact NamesOk.src_names_ok_spec. Qed.
+Print Assumptions src_names_ok_spec.
+
+Theorem names_ok_from_source :
+  forall (mp : option text) (tl : list text) (name : text) (glob optimize : bool) (body : list stmt) (w : wst) (code : list instr),
+  src_ok body ->
+  src_names_ok name body = true ->
+  emit_graph body = Ok w -> emit_script mp tl name glob optimize body = Ok code -> RenderFromSource.names_okb (finals w) code = true.
+Proof. exact NamesOk.names_ok_from_source. Qed.
+Print Assumptions names_ok_from_source.
+
+Theorem compiled_scripts_correct_src_names :
+  forall (St : Type) (exec : cmd -> St -> stepres St) (flag_set trainer_beaten : text -> St -> bool)
+    (cmp_var cmp_var_value : text -> text -> St -> comparison) (case_matches : text -> text -> St -> bool) (hl hd hs : N -> bool)
+    (autovars : list (text * autovar)) (switches : list (text * text)) (ee : bool) (fc : fontcfg) (cli_font : text) 
+    (cli_maxlen : Z) (src : text) (p : program),
+  parse_program autovars switches ee (parse_format fc cli_font cli_maxlen ee) (lex hl hd hs src) = Parser.Ok p ->
+  forall body : list stmt,
+  In body (bodies_of (tops p)) ->
+  forall (mp : option text) (tl : list text) (name : text) (glob optimize : bool) (w : wst) (code : list instr),
+  src_names_ok name body = true ->
+  emit_graph body = Ok w ->
+  emit_script mp tl name glob optimize body = Ok code ->
+  (Z.of_nat (Datatypes.length (finals w)) <= 10 ^ 40)%Z ->
+  (forall (n : nat) (s : St),
+   exists m : nat,
+     run sfinal (sstep St exec flag_set trainer_beaten cmp_var cmp_var_value case_matches (fun l : text => fl_body l body Kstop)) n
+       (enter body Kstop) s = run tfinal (tstep St exec flag_set trainer_beaten cmp_var cmp_var_value case_matches code) m (jump code name) s) /\
+  (forall (m : nat) (s : St),
+   exists n : nat,
+     res_le (run tfinal (tstep St exec flag_set trainer_beaten cmp_var cmp_var_value case_matches code) m (jump code name) s)
+       (run sfinal (sstep St exec flag_set trainer_beaten cmp_var cmp_var_value case_matches (fun l : text => fl_body l body Kstop)) n
+          (enter body Kstop) s)).
+Proof. exact NamesOk.compiled_scripts_correct_src_names. Qed.
+Print Assumptions compiled_scripts_correct_src_names.
+
+Theorem optimize_equiv_src_names :
+  forall (St : Type) (exec : cmd -> St -> stepres St) (flag_set trainer_beaten : text -> St -> bool)
+    (cmp_var cmp_var_value : text -> text -> St -> comparison) (case_matches : text -> text -> St -> bool) (hl hd hs : N -> bool)
+    (autovars : list (text * autovar)) (switches : list (text * text)) (ee : bool) (fc : fontcfg) (cli_font : text) 
+    (cli_maxlen : Z) (src : text) (p : program),
+  parse_program autovars switches ee (parse_format fc cli_font cli_maxlen ee) (lex hl hd hs src) = Parser.Ok p ->
+  forall body : list stmt,
+  In body (bodies_of (tops p)) ->
+  forall (mp : option text) (tl : list text) (name : text) (glob : bool) (w : wst) (code0 code1 : list instr),
+  src_names_ok name body = true ->
+  emit_graph body = Ok w ->
+  emit_script mp tl name glob false body = Ok code0 ->
+  emit_script mp tl name glob true body = Ok code1 ->
+  (Z.of_nat (Datatypes.length (finals w)) <= 10 ^ 40)%Z ->
+  (forall (m : nat) (s : St),
+   exists m' : nat,
+     res_le (run tfinal (tstep St exec flag_set trainer_beaten cmp_var cmp_var_value case_matches code0) m (jump code0 name) s)
+       (run tfinal (tstep St exec flag_set trainer_beaten cmp_var cmp_var_value case_matches code1) m' (jump code1 name) s)) /\
+  (forall (m : nat) (s : St),
+   exists m' : nat,
+     res_le (run tfinal (tstep St exec flag_set trainer_beaten cmp_var cmp_var_value case_matches code1) m (jump code1 name) s)
+       (run tfinal (tstep St exec flag_set trainer_beaten cmp_var cmp_var_value case_matches code0) m' (jump code0 name) s)).
+Proof. exact NamesOk.optimize_equiv_src_names. Qed.
+Print Assumptions optimize_equiv_src_names.
+
+Theorem program_scripts_correct_src_names :
+  forall (St : Type) (exec : cmd -> St -> stepres St) (flag_set trainer_beaten : text -> St -> bool)
+    (cmp_var cmp_var_value : text -> text -> St -> comparison) (case_matches : text -> text -> St -> bool) (hl hd hs : N -> bool)
+    (autovars : list (text * autovar)) (switches : list (text * text)) (ee : bool) (fc : fontcfg) (cli_font : text) 
+    (cli_maxlen : Z) (src : text) (p : program) (optimize : bool) (mp : option text) (prog : list instr),
+  parse_program autovars switches ee (parse_format fc cli_font cli_maxlen ee) (lex hl hd hs src) = Parser.Ok p ->
+  emit_program_instrs optimize mp p = Ok prog ->
+  NoDup (lnames prog) ->
+  forall (name : text) (glob : bool) (body : list stmt),
+  In (name, glob, body) (NameClash.scripts_of (tops p)) ->
+  src_names_ok name body = true ->
+  forall (w : wst) (code : list instr),
+  emit_graph body = Ok w ->
+  emit_script mp (map xname (texts p)) name glob optimize body = Ok code ->
+  (forall (n : nat) (s : St),
+   exists m : nat,
+     match
+       snd
+         (run sfinal (sstep St exec flag_set trainer_beaten cmp_var cmp_var_value case_matches (fun l : text => fl_body l body Kstop)) n
+            (enter body Kstop) s)
+     with
+     | Done (OJumpOut l) =>
+         exists (k : nat) (s' : St),
+           k <= m /\
+           steps tfinal (tstep St exec flag_set trainer_beaten cmp_var cmp_var_value case_matches prog) k (jump prog name) s
+             (Datatypes.fst
+                (run sfinal (sstep St exec flag_set trainer_beaten cmp_var cmp_var_value case_matches (fun l0 : text => fl_body l0 body Kstop))
+                   n (enter body Kstop) s)) (jump prog l) s'
+     | _ =>
+         run tfinal (tstep St exec flag_set trainer_beaten cmp_var cmp_var_value case_matches prog) m (jump prog name) s =
+         run sfinal (sstep St exec flag_set trainer_beaten cmp_var cmp_var_value case_matches (fun l : text => fl_body l body Kstop)) n
+           (enter body Kstop) s
+     end) /\
+  (forall (m : nat) (s : St),
+   exists n : nat,
+     res_le (run tfinal (tstep St exec flag_set trainer_beaten cmp_var cmp_var_value case_matches prog) m (jump prog name) s)
+       (run sfinal (sstep St exec flag_set trainer_beaten cmp_var cmp_var_value case_matches (fun l : text => fl_body l body Kstop)) n
+          (enter body Kstop) s) \/
+     (exists (l : text) (k : nat) (s' : St),
+        snd
+          (run sfinal (sstep St exec flag_set trainer_beaten cmp_var cmp_var_value case_matches (fun l0 : text => fl_body l0 body Kstop)) n
+             (enter body Kstop) s) = Done (OJumpOut l) /\
+        In l (lnames prog) /\
+        k <= m /\
+        steps tfinal (tstep St exec flag_set trainer_beaten cmp_var cmp_var_value case_matches prog) k (jump prog name) s
+          (Datatypes.fst
+             (run sfinal (sstep St exec flag_set trainer_beaten cmp_var cmp_var_value case_matches (fun l0 : text => fl_body l0 body Kstop)) n
+                (enter body Kstop) s)) (jump prog l) s')).
+Proof. exact NamesOk.program_scripts_correct_src_names. Qed.
+Print Assumptions program_scripts_correct_src_names.
+
+Theorem program_script_goto_continues_src_names :
+  forall (St : Type) (exec : cmd -> St -> stepres St) (flag_set trainer_beaten : text -> St -> bool)
+    (cmp_var cmp_var_value : text -> text -> St -> comparison) (case_matches : text -> text -> St -> bool) (hl hd hs : N -> bool)
+    (autovars : list (text * autovar)) (switches : list (text * text)) (ee : bool) (fc : fontcfg) (cli_font : text) 
+    (cli_maxlen : Z) (src : text) (p : program) (optimize : bool) (mp : option text) (prog : list instr),
+  parse_program autovars switches ee (parse_format fc cli_font cli_maxlen ee) (lex hl hd hs src) = Parser.Ok p ->
+  emit_program_instrs optimize mp p = Ok prog ->
+  NoDup (lnames prog) ->
+  forall (name : text) (glob : bool) (body : list stmt),
+  In (name, glob, body) (NameClash.scripts_of (tops p)) ->
+  src_names_ok name body = true ->
+  forall (w : wst) (code : list instr),
+  emit_graph body = Ok w ->
+  emit_script mp (map xname (texts p)) name glob optimize body = Ok code ->
+  forall (n : nat) (s : St) (l : text),
+  snd
+    (run sfinal (sstep St exec flag_set trainer_beaten cmp_var cmp_var_value case_matches (fun l0 : text => fl_body l0 body Kstop)) n
+       (enter body Kstop) s) = Done (OJumpOut l) ->
+  exists (k : nat) (s' : St),
+    forall j : nat,
+    run tfinal (tstep St exec flag_set trainer_beaten cmp_var cmp_var_value case_matches prog) (k + j) (jump prog name) s =
+    (Datatypes.fst
+       (run sfinal (sstep St exec flag_set trainer_beaten cmp_var cmp_var_value case_matches (fun l0 : text => fl_body l0 body Kstop)) n
+          (enter body Kstop) s) ++
+     Datatypes.fst (run tfinal (tstep St exec flag_set trainer_beaten cmp_var cmp_var_value case_matches prog) j (jump prog l) s'),
+     snd (run tfinal (tstep St exec flag_set trainer_beaten cmp_var cmp_var_value case_matches prog) j (jump prog l) s')).
+Proof. exact NamesOk.program_script_goto_continues_src_names. Qed.
+Print Assumptions program_script_goto_continues_src_names.
+
+Theorem jump_targets_from_source :
+  forall (mp : option text) (tl : list text) (name : text) (glob optimize : bool) (body : list stmt) (w : wst) (code : list instr) (l : text),
+  emit_graph body = Ok w ->
+  emit_script mp tl name glob optimize body = Ok code ->
+  wf_render mp name (finals w) (order_of optimize (finals w)) code = true ->
+  In l (jtargets code) ->
+  In l (lnames code) \/ (exists c : cmd, In (ML.KCommand c) (ML.body_constructs body) /\ is_name c "goto" = true /\ cargs c = [l]).
+Proof. exact NamesOk.jump_targets_from_source. Qed.
+Print Assumptions jump_targets_from_source.
+
+Theorem program_self_contained_scripts_correct_src_names :
+  forall (St : Type) (exec : cmd -> St -> stepres St) (flag_set trainer_beaten : text -> St -> bool)
+    (cmp_var cmp_var_value : text -> text -> St -> comparison) (case_matches : text -> text -> St -> bool) (hl hd hs : N -> bool)
+    (autovars : list (text * autovar)) (switches : list (text * text)) (ee : bool) (fc : fontcfg) (cli_font : text) 
+    (cli_maxlen : Z) (src : text) (p : program) (optimize : bool) (mp : option text) (prog : list instr),
+  parse_program autovars switches ee (parse_format fc cli_font cli_maxlen ee) (lex hl hd hs src) = Parser.Ok p ->
+  emit_program_instrs optimize mp p = Ok prog ->
+  NoDup (lnames prog) ->
+  forall (name : text) (glob : bool) (body : list stmt),
+  In (name, glob, body) (NameClash.scripts_of (tops p)) ->
+  src_names_ok name body = true ->
+  (forall (c : cmd) (l : text),
+   In (ML.KCommand c) (ML.body_constructs body) ->
+   is_name c "goto" = true -> cargs c = [l] -> In l (WorkLabels.dlabs body) \/ ~ In l (lnames prog)) ->
+  forall (w : wst) (code : list instr),
+  emit_graph body = Ok w ->
+  emit_script mp (map xname (texts p)) name glob optimize body = Ok code ->
+  (forall (n : nat) (s : St),
+   exists m : nat,
+     run sfinal (sstep St exec flag_set trainer_beaten cmp_var cmp_var_value case_matches (fun l : text => fl_body l body Kstop)) n
+       (enter body Kstop) s = run tfinal (tstep St exec flag_set trainer_beaten cmp_var cmp_var_value case_matches prog) m (jump prog name) s) /\
+  (forall (m : nat) (s : St),
+   exists n : nat,
+     res_le (run tfinal (tstep St exec flag_set trainer_beaten cmp_var cmp_var_value case_matches prog) m (jump prog name) s)
+       (run sfinal (sstep St exec flag_set trainer_beaten cmp_var cmp_var_value case_matches (fun l : text => fl_body l body Kstop)) n
+          (enter body Kstop) s)).
+Proof. exact NamesOk.program_self_contained_scripts_correct_src_names. Qed.
+Print Assumptions program_self_contained_scripts_correct_src_names.
+
+Theorem program_labels_from_source :
+  forall (hl hd hs : N -> bool) (autovars : list (text * autovar)) (switches : list (text * text)) (ee : bool) (fc : fontcfg) 
+    (cli_font : text) (cli_maxlen : Z) (src : text) (p : program) (optimize : bool) (mp : option text) (prog : list instr),
+  parse_program autovars switches ee (parse_format fc cli_font cli_maxlen ee) (lex hl hd hs src) = Parser.Ok p ->
+  emit_program_instrs optimize mp p = Ok prog -> forall l : text, In l (lnames prog) -> program_names p l.
+Proof. exact NamesOk.program_labels_from_source. Qed.
+Print Assumptions program_labels_from_source.
+
+Theorem program_self_contained_scripts_correct_source :
+  forall (St : Type) (exec : cmd -> St -> stepres St) (flag_set trainer_beaten : text -> St -> bool)
+    (cmp_var cmp_var_value : text -> text -> St -> comparison) (case_matches : text -> text -> St -> bool) (hl hd hs : N -> bool)
+    (autovars : list (text * autovar)) (switches : list (text * text)) (ee : bool) (fc : fontcfg) (cli_font : text) 
+    (cli_maxlen : Z) (src : text) (p : program) (optimize : bool) (mp : option text) (prog : list instr),
+  parse_program autovars switches ee (parse_format fc cli_font cli_maxlen ee) (lex hl hd hs src) = Parser.Ok p ->
+  emit_program_instrs optimize mp p = Ok prog ->
+  NoDup (lnames prog) ->
+  forall (name : text) (glob : bool) (body : list stmt),
+  In (name, glob, body) (NameClash.scripts_of (tops p)) ->
+  src_names_ok name body = true ->
+  (forall (c : cmd) (l : text),
+   In (ML.KCommand c) (ML.body_constructs body) ->
+   is_name c "goto" = true -> cargs c = [l] -> In l (WorkLabels.dlabs body) \/ ~ program_names p l) ->
+  forall (w : wst) (code : list instr),
+  emit_graph body = Ok w ->
+  emit_script mp (map xname (texts p)) name glob optimize body = Ok code ->
+  (forall (n : nat) (s : St),
+   exists m : nat,
+     run sfinal (sstep St exec flag_set trainer_beaten cmp_var cmp_var_value case_matches (fun l : text => fl_body l body Kstop)) n
+       (enter body Kstop) s = run tfinal (tstep St exec flag_set trainer_beaten cmp_var cmp_var_value case_matches prog) m (jump prog name) s) /\
+  (forall (m : nat) (s : St),
+   exists n : nat,
+     res_le (run tfinal (tstep St exec flag_set trainer_beaten cmp_var cmp_var_value case_matches prog) m (jump prog name) s)
+       (run sfinal (sstep St exec flag_set trainer_beaten cmp_var cmp_var_value case_matches (fun l : text => fl_body l body Kstop)) n
+          (enter body Kstop) s)).
+Proof. exact NamesOk.program_self_contained_scripts_correct_source. Qed.
+Print Assumptions program_self_contained_scripts_correct_source.
+
+Theorem program_local_goto_scripts_correct :
+  forall (St : Type) (exec : cmd -> St -> stepres St) (flag_set trainer_beaten : text -> St -> bool)
+    (cmp_var cmp_var_value : text -> text -> St -> comparison) (case_matches : text -> text -> St -> bool) (hl hd hs : N -> bool)
+    (autovars : list (text * autovar)) (switches : list (text * text)) (ee : bool) (fc : fontcfg) (cli_font : text) 
+    (cli_maxlen : Z) (src : text) (p : program) (optimize : bool) (mp : option text) (prog : list instr),
+  parse_program autovars switches ee (parse_format fc cli_font cli_maxlen ee) (lex hl hd hs src) = Parser.Ok p ->
+  emit_program_instrs optimize mp p = Ok prog ->
+  NoDup (lnames prog) ->
+  forall (name : text) (glob : bool) (body : list stmt),
+  In (name, glob, body) (NameClash.scripts_of (tops p)) ->
+  src_names_ok name body = true ->
+  gotos_local body = true ->
+  forall (w : wst) (code : list instr),
+  emit_graph body = Ok w ->
+  emit_script mp (map xname (texts p)) name glob optimize body = Ok code ->
+  (forall (n : nat) (s : St),
+   exists m : nat,
+     run sfinal (sstep St exec flag_set trainer_beaten cmp_var cmp_var_value case_matches (fun l : text => fl_body l body Kstop)) n
+       (enter body Kstop) s = run tfinal (tstep St exec flag_set trainer_beaten cmp_var cmp_var_value case_matches prog) m (jump prog name) s) /\
+  (forall (m : nat) (s : St),
+   exists n : nat,
+     res_le (run tfinal (tstep St exec flag_set trainer_beaten cmp_var cmp_var_value case_matches prog) m (jump prog name) s)
+       (run sfinal (sstep St exec flag_set trainer_beaten cmp_var cmp_var_value case_matches (fun l : text => fl_body l body Kstop)) n
+          (enter body Kstop) s)).
+Proof. exact NamesOk.program_local_goto_scripts_correct. Qed.
+Print Assumptions program_local_goto_scripts_correct.
+
+Theorem autovar_names_from_config :
+  forall (hl hd hs : N -> bool) (autovars : list (text * autovar)) (switches : list (text * text)) (ee : bool) (fc : fontcfg) 
+    (cli_font : text) (cli_maxlen : Z) (src : text) (p : program),
+  parse_program autovars switches ee (parse_format fc cli_font cli_maxlen ee) (lex hl hd hs src) = Parser.Ok p ->
+  autovars_ok autovars = true ->
+  forall body : list stmt,
+  In body (bodies_of (tops p)) ->
+  forall (l : leaf) (c' : cmd),
+  In (ML.KCond l) (ML.body_constructs body) ->
+  lpre l = Some c' -> is_name c' "end" = false /\ is_name c' "return" = false /\ is_name c' "goto" = false.
+Proof. exact NamesOk.autovar_names_from_config. Qed.
+Print Assumptions autovar_names_from_config.
+
+Theorem compiled_scripts_correct_src_labels :
+  forall (St : Type) (exec : cmd -> St -> stepres St) (flag_set trainer_beaten : text -> St -> bool)
+    (cmp_var cmp_var_value : text -> text -> St -> comparison) (case_matches : text -> text -> St -> bool) (hl hd hs : N -> bool)
+    (autovars : list (text * autovar)) (switches : list (text * text)) (ee : bool) (fc : fontcfg) (cli_font : text) 
+    (cli_maxlen : Z) (src : text) (p : program),
+  parse_program autovars switches ee (parse_format fc cli_font cli_maxlen ee) (lex hl hd hs src) = Parser.Ok p ->
+  autovars_ok autovars = true ->
+  forall body : list stmt,
+  In body (bodies_of (tops p)) ->
+  forall (mp : option text) (tl : list text) (name : text) (glob optimize : bool) (w : wst) (code : list instr),
+  src_labels_ok name body = true ->
+  emit_graph body = Ok w ->
+  emit_script mp tl name glob optimize body = Ok code ->
+  (Z.of_nat (Datatypes.length (finals w)) <= 10 ^ 40)%Z ->
+  (forall (n : nat) (s : St),
+   exists m : nat,
+     run sfinal (sstep St exec flag_set trainer_beaten cmp_var cmp_var_value case_matches (fun l : text => fl_body l body Kstop)) n
+       (enter body Kstop) s = run tfinal (tstep St exec flag_set trainer_beaten cmp_var cmp_var_value case_matches code) m (jump code name) s) /\
+  (forall (m : nat) (s : St),
+   exists n : nat,
+     res_le (run tfinal (tstep St exec flag_set trainer_beaten cmp_var cmp_var_value case_matches code) m (jump code name) s)
+       (run sfinal (sstep St exec flag_set trainer_beaten cmp_var cmp_var_value case_matches (fun l : text => fl_body l body Kstop)) n
+          (enter body Kstop) s)).
+Proof. exact NamesOk.compiled_scripts_correct_src_labels. Qed.
+Print Assumptions compiled_scripts_correct_src_labels.
+
+Theorem generated_form_spec :
+  forall name l : text, generated_form name l = true <-> (exists ds : list N, l = name ++ t "_" ++ ds /\ ds <> [] /\ forallb is_digit ds = true).
+Proof. exact NamesOk.generated_form_spec. Qed.
+Print Assumptions generated_form_spec.
+
+
+(* ---- THE STATEMENT (C01Capstone.v): from the source text, every script body of every accepted program, both settings, any
+   abstract game: whenever the emitter produces code, source and code behave alike (both directions). No premise about the
+   compiler's work is left - only src_names_ok on the author's names. (That the emitter does answer: C18 compile_total_tokens.) ---- *)
+From Pory Require Import C01Capstone.
+Theorem compiled_scripts_correct_final :
+  forall (St : Type) (exec : cmd -> St -> stepres St) (flag_set trainer_beaten : text -> St -> bool)
+    (cmp_var cmp_var_value : text -> text -> St -> comparison) (case_matches : text -> text -> St -> bool) (hl hd hs : N -> bool)
+    (autovars : list (text * autovar)) (switches : list (text * text)) (ee : bool) (fc : fontcfg) (cli_font : text) 
+    (cli_maxlen : Z) (src : text) (p : program),
+  parse_program autovars switches ee (parse_format fc cli_font cli_maxlen ee) (lex hl hd hs src) = Parser.Ok p ->
+  forall body : list stmt,
+  In body (bodies_of (tops p)) ->
+  forall (mp : option text) (tl : list text) (name : text) (glob optimize : bool) (code : list instr),
+  src_names_ok name body = true ->
+  emit_script mp tl name glob optimize body = Ok code ->
+  (forall (n : nat) (s : St),
+   exists m : nat,
+     run sfinal (sstep St exec flag_set trainer_beaten cmp_var cmp_var_value case_matches (fun l : text => fl_body l body Kstop)) n
+       (enter body Kstop) s = run tfinal (tstep St exec flag_set trainer_beaten cmp_var cmp_var_value case_matches code) m (jump code name) s) /\
+  (forall (m : nat) (s : St),
+   exists n : nat,
+     res_le (run tfinal (tstep St exec flag_set trainer_beaten cmp_var cmp_var_value case_matches code) m (jump code name) s)
+       (run sfinal (sstep St exec flag_set trainer_beaten cmp_var cmp_var_value case_matches (fun l : text => fl_body l body Kstop)) n
+          (enter body Kstop) s)).
+Proof. exact C01Capstone.compiled_scripts_correct_final. Qed.
+Print Assumptions compiled_scripts_correct_final.
+
